@@ -46,8 +46,18 @@ package common
 //@ -- KeyOff(s, tx, k): the number of keys of the outputs spent by inputs 0..k-1 = the offset of input k's window in the concatenated key list
 //@ rec KeyOff(s any, tx *Transaction, n int) mathint = n <= 0 ? 0 : KeyOff(s, tx, n - 1) + StoreKeyCount(s, tx.Inputs[n - 1].Hash, tx.Inputs[n - 1].Index)
 //@ recframe KeyOff
+//@ -- reclimit: one unfolding per existing term (the plain defining axiom unfolds KeyOff(k), KeyOff(k-1), ... for a symbolic k: a matching loop)
+//@ reclimit KeyOff
 
 //@ -- signer position i of the aggregate signature falls into the key window of input k
 //@ spec InAggWindow(s any, tx *SignedTransaction, k int, i int) bool = 0 <= i && i < len(tx.AggregatedSignature.Signers) &&
 //@     KeyOff(s, &tx.Transaction, k) <= tx.AggregatedSignature.Signers[i] &&
 //@     tx.AggregatedSignature.Signers[i] < KeyOff(s, &tx.Transaction, k) + InKeyCount(s, tx.Inputs[k])
+
+//@ -- PayloadHashOf(ver): the value ver.PayloadHash() returns (Blake3 of the payload encoding, cached in ver.hash). ABSTRACTION: a function of the
+//@ -- transaction object, i.e. the payload fields are not mutated between two calls (pinned by the `assumes` clause of PayloadHash, C06 file).
+//@ uninterp PayloadHashOf(ver *VersionedTransaction) crypto.Hash
+
+//@ -- typing fact: the signature objects are not the hash cache of the transaction (a [64]byte object is never the [32]byte field ver.hash)
+//@ spec SigsNotHashCache(ver *VersionedTransaction) bool = forall k int, i uint16 :: 0 <= k && k < len(ver.SignaturesMap) && has(ver.SignaturesMap[k], i) ==>
+//@     ver.SignaturesMap[k][i] != &ver.hash
